@@ -17,7 +17,7 @@ import plistlib
 
 from mc.run import Result, h, time_limit, CaseTimeout, run_sharded
 from mc import pairspace, cli
-from mc.gen import DocSpace, canon, strings
+from mc.gen import build_options, DocSpace, canon, strings
 from mc.script import plain, site_of
 
 ID = 'C12'
@@ -90,14 +90,14 @@ def norm(fmt, v):
     return canon(v)
 
 
-def roundtrip(fmt, doc, name='rt', printer=None, use_node_eq=True):
-    """None if the printed text reloads equal, else (kind, detail)."""
+def roundtrip(fmt, doc, name='rt', printer=None, use_node_eq=True, opt=None):
+    """None if the printed text reloads equal, else (kind, detail). opt: build options (dict strategy, list mode) or None."""
     dirp = pairspace.tmpdir()
     text = write_doc(fmt, doc)
     f1 = cli.write_file(dirp, name + '_in' + EXT[fmt], text)
     ft = filetype(fmt)
     try:
-        t1 = ft.build_tree(f1)
+        t1 = ft.build_tree(f1, build_options(tuple(opt))) if opt else ft.build_tree(f1)
     except Exception as ex:  # noqa  the reference writer's output must load; otherwise the case is outside the domain
         return ('first_load_failed', f'{type(ex).__name__}: {ex}')
     try:
@@ -106,7 +106,7 @@ def roundtrip(fmt, doc, name='rt', printer=None, use_node_eq=True):
         return (f'print_raised {type(ex).__name__} @ {site_of(ex)}', repr(ex))
     f2 = cli.write_file(dirp, name + '_out' + EXT[fmt], out)
     try:
-        t2 = ft.build_tree(f2)
+        t2 = ft.build_tree(f2, build_options(tuple(opt))) if opt else ft.build_tree(f2)
     except Exception as ex:  # noqa
         return ('printed_text_rejected_by_loader', f'{type(ex).__name__}: {str(ex)[:200]}; printed {out[:200]!r}')
     try:
@@ -170,6 +170,13 @@ def cases(tier):
             yield fmt, 'mixed-string batch key', {c: j for j, c in enumerate(chunk)}
         cells = [c for c in chunk if '\r' not in c and '\x00' not in c]
         yield 'csv', 'mixed-string batch cell', [[c, 'x'] for c in cells]
+    # -- characters that mean something at the very start of a file (byte-order marks) as the start of the first cell / value
+    for lead in ('\ufeff', '\ufffe', '\ufeff\ufeff', '\u200b', '#', ' ', '\t'):
+        for rest in ('', 'id'):
+            if lead + rest:
+                yield 'csv', 'file-initial cell', [[lead + rest, 'x'], ['1', '2']]
+                for fmt in ('json', 'json5'):
+                    yield fmt, 'file-initial value', lead + rest
     # -- pairs of syntax characters
     for a, b in itertools.product(SYNTAX, repeat=2):
         s = a + b
@@ -231,6 +238,9 @@ def cases(tier):
                 yield 'plist', 'small doc', [d]
     for el in pairspace.xml_elements('quick' if q else 'thorough'):
         yield 'xml', 'element', el
+    for d in OPTION_DOCS:
+        for fmt in ('json', 'json5', 'yaml', 'plist'):
+            yield fmt, 'nested doc under options', d
     for n in (0, 1, -1, 2 ** 31, 2 ** 63 - 1, 1.5, 0.1, 1e16, 1e22):
         yield 'yaml', 'number', [n]
         yield 'plist', 'number', [n]
@@ -278,9 +288,19 @@ def describe(fmt, kind, doc, res):
     return {'key': f'{res[0]} @ {fmt} formatter : {feature}', 'detail': f'{fmt} {kind}: {json.dumps(doc, default=str)[:300]} -> {res[1]}'}
 
 
+OPTION_DOCS = ({'server': {'name': 'web01', 'limits': {'cpu': 4}}, 'l': [{'a': {'b': 1}}, [1, [2]]]}, [{'k': {'n': {'m': 'v'}}}], {'a': [1, 2], 'b': {'c': [3]}})
+
+
 def evaluate(fmt, kind, doc):
     try:
         with time_limit(CASE_TIMEOUT):
+            if kind == 'nested doc under options':
+                for opt in (('none', 'on'), ('match', 'on'), ('auto', 'off'), ('none', 'samelen')):
+                    res = roundtrip(fmt, doc, opt=opt)
+                    if res is not None and res[0] != 'first_load_failed':
+                        return {'key': f'{res[0]} @ {fmt} formatter : nested document, dict={opt[0]}, lists={opt[1]}',
+                                'detail': f'{json.dumps(doc)} -> {res[1]}'}, doc
+                return None, doc
             res = roundtrip(fmt, doc, use_node_eq=(kind != 'nesting chain'))
             if res is None:
                 return None, doc
